@@ -130,9 +130,9 @@ func (s c08sigma) swapped() c08sigma {
 
 func c08fmt(v float64) string { return strconv.FormatFloat(v, 'g', -1, 64) }
 
-func c08measureSyms(k c08kind, sets []int, vals []float64) []c08sym {
+func c08measureSyms(k c08kind, set int, vals []float64) []c08sym {
 	var out []c08sym
-	for _, s := range sets {
+	for _, s := range []int{set} {
 		for _, v := range vals {
 			verb := "Add"
 			if k == c08Hist || k == c08EHist || k == c08Gauge {
@@ -177,33 +177,36 @@ func c08sigmas(vals []float64) []c08sigma {
 	return out
 }
 
-// values per kind: small numbers whose sums are exact in float64; the float64 alphabets
-// contain a fraction; histogram values fall into two different default buckets;
-// exponential-histogram values are zero or powers of two far enough apart to force
-// different scales in the delta and the cumulative stream (MaxSize 4).
-func c08values(k c08kind, isInt, thorough bool) []float64 {
-	frac := func(v float64) float64 {
-		if isInt {
-			return v
-		}
-		return v - 0.5
+// values per kind and attribute set: small numbers whose sums are exact in float64; the
+// float64 alphabets contain a fraction; histogram values fall into two different default
+// buckets; exponential-histogram values are zero or +-powers of two far enough apart to
+// force different scales in the delta and the cumulative stream (MaxSize 4). size 0 is
+// the reduced alphabet of the mixed jobs (one value per set), 1 the quick, 2 the thorough
+// alphabet.
+func c08values(k c08kind, isInt bool, size int) (a, b []float64) {
+	one := 1.0
+	if !isInt {
+		one = 0.5
 	}
 	switch k {
 	case c08Counter:
-		return []float64{frac(1), 2}
+		a, b = []float64{one, 2}, []float64{one, 2}
 	case c08UpDown:
-		return []float64{frac(1), 2, -1}
+		a, b = []float64{one, 2, -1}, []float64{one, -1}
 	case c08Hist:
-		return []float64{frac(1), 2, 7}
+		a, b = []float64{one, 2, 7}, []float64{one, 7}
 	case c08EHist:
-		if thorough {
-			return []float64{1, 2, 64, 0, -1}
+		a, b = []float64{1, 2, 64}, []float64{1, 64}
+		if size == 2 {
+			a, b = []float64{1, 2, 64, 0, -1}, []float64{1, 2, 64, 0, -1}
 		}
-		return []float64{1, 2, 64}
 	case c08Gauge:
-		return []float64{frac(1), 2, -1}
+		a, b = []float64{one, 2, -1}, []float64{one, 2, -1}
 	}
-	return nil
+	if size == 0 {
+		a, b = a[:1], b[len(b)-1:]
+	}
+	return a, b
 }
 
 // ---------------------------------------------------------------------------
@@ -239,6 +242,17 @@ func c08modeName(reuse bool) string {
 }
 
 // c08jobs lists the jobs of a tier. The list depends only on the tier.
+//
+// Bounds (max events per cycle, one entry per cycle; shards of the last level):
+//
+//	                quick (both modes)   thorough fresh        thorough reuse
+//	sync-counter    3,2,2                3,3,3,2               3,3,3
+//	sync-updown     2,2,2                3,3,3   (2 shards)    3,2,2
+//	sync-histogram  2,2,2                3,3,3   (2 shards)    3,2,2
+//	sync-expohist   2,2,2                2,2,2   (2 shards)    2,2,1
+//	sync-gauge      3,3,3                3,3,3,3               3,3,3
+//	async           2,1,1                3,2,2   (2 shards)    2,2,2
+//	mixed           2,1                  2,1,1   (2 shards)    2,1,1  (2 shards)
 func c08jobs(thorough bool) []*c08job {
 	var jobs []*c08job
 	add := func(j *c08job, shards int) {
@@ -259,23 +273,44 @@ func c08jobs(thorough bool) []*c08job {
 			jobs = append(jobs, &c)
 		}
 	}
+	type bnd struct {
+		per    []int
+		shards int
+	}
+	pick := func(reuse bool, quick, fresh, reused bnd) bnd {
+		switch {
+		case !thorough:
+			return quick
+		case reuse:
+			return reused
+		}
+		return fresh
+	}
+	size := 1
+	if thorough {
+		size = 2
+	}
 	for _, reuse := range []bool{false, true} {
 		for _, isInt := range []bool{true, false} {
 			sfx := "/" + c08numName(isInt) + "/" + c08modeName(reuse)
 			// one synchronous instrument, full value alphabet
 			for _, k := range []c08kind{c08Counter, c08UpDown, c08Hist, c08EHist, c08Gauge} {
 				j := &c08job{name: "sync-" + k.String() + sfx, isInt: isInt, reuse: reuse, insts: []c08kind{k}}
-				vals := c08values(k, isInt, thorough)
-				j.syms = c08measureSyms(k, []int{0, 1}, vals)
-				if thorough {
-					j.perCycle = []int{3, 3, 3}
-					if len(j.syms) > 6 {
-						j.perCycle = []int{3, 2, 2}
-					}
-				} else {
-					j.perCycle = []int{2, 2, 2}
+				va, vb := c08values(k, isInt, size)
+				j.syms = append(c08measureSyms(k, 0, va), c08measureSyms(k, 1, vb)...)
+				var b bnd
+				switch k {
+				case c08Counter:
+					b = pick(reuse, bnd{[]int{3, 2, 2}, 1}, bnd{[]int{3, 3, 3, 2}, 1}, bnd{[]int{3, 3, 3}, 1})
+				case c08UpDown, c08Hist:
+					b = pick(reuse, bnd{[]int{2, 2, 2}, 1}, bnd{[]int{3, 3, 3}, 2}, bnd{[]int{3, 2, 2}, 1})
+				case c08EHist:
+					b = pick(reuse, bnd{[]int{2, 2, 2}, 1}, bnd{[]int{2, 2, 2}, 2}, bnd{[]int{2, 2, 1}, 1})
+				case c08Gauge:
+					b = pick(reuse, bnd{[]int{3, 3, 3}, 1}, bnd{[]int{3, 3, 3, 3}, 1}, bnd{[]int{3, 3, 3}, 1})
 				}
-				add(j, 1)
+				j.perCycle = b.per
+				add(j, b.shards)
 			}
 			// the three observables with their own callbacks and a multi-instrument callback
 			{
@@ -285,40 +320,37 @@ func c08jobs(thorough bool) []*c08job {
 					one = 1.5
 				}
 				j.syms = c08regSyms([]float64{2, 4})
-				j.sigmas = c08sigmas([]float64{one, 3, 5})
 				if thorough {
-					j.perCycle = []int{3, 3, 3}
-					add(j, 4)
+					j.sigmas = c08sigmas([]float64{one, 3, 5})
 				} else {
-					j.perCycle = []int{2, 2}
-					add(j, 1)
+					j.sigmas = c08sigmas([]float64{one, 3})
 				}
+				b := pick(reuse, bnd{[]int{2, 1, 1}, 1}, bnd{[]int{3, 2, 2}, 2}, bnd{[]int{2, 2, 2}, 1})
+				j.perCycle = b.per
+				add(j, b.shards)
 			}
 			// every instrument in one provider, reduced alphabets
 			{
 				j := &c08job{name: "mixed" + sfx, isInt: isInt, reuse: reuse,
 					insts: []c08kind{c08Counter, c08UpDown, c08Hist, c08EHist, c08Gauge, c08OCounter, c08OUpDown, c08OGauge}}
 				for _, k := range []c08kind{c08Counter, c08UpDown, c08Hist, c08EHist, c08Gauge} {
-					vals := c08values(k, isInt, false)
-					j.syms = append(j.syms, c08measureSyms(k, []int{0}, vals[:1])...)
-					j.syms = append(j.syms, c08measureSyms(k, []int{1}, vals[len(vals)-1:])...)
+					va, _ := c08values(k, isInt, 0)
+					j.syms = append(j.syms, c08measureSyms(k, 0, va)...)
+				}
+				for _, k := range []c08kind{c08Counter, c08EHist, c08Gauge} {
+					_, vb := c08values(k, isInt, 0)
+					j.syms = append(j.syms, c08measureSyms(k, 1, vb)...)
 				}
 				j.syms = append(j.syms, c08regSyms([]float64{2})...)
-				all := c08sigmas([]float64{1, 3})
-				// {}, {B=1}, {A=1}, {A=3,B=1}, {A=1,B=3}
-				for _, s := range all {
+				for _, s := range c08sigmas([]float64{1, 3}) {
 					switch s.name {
-					case "{}", "{B=1}", "{A=1}", "{A=3,B=1}", "{A=1,B=3}":
+					case "{}", "{A=1}", "{A=3,B=1}":
 						j.sigmas = append(j.sigmas, s)
 					}
 				}
-				if thorough {
-					j.perCycle = []int{2, 1, 1}
-					add(j, 4)
-				} else {
-					j.perCycle = []int{2, 1}
-					add(j, 1)
-				}
+				b := pick(reuse, bnd{[]int{2, 1}, 1}, bnd{[]int{2, 1, 1}, 2}, bnd{[]int{2, 1, 1}, 2})
+				j.perCycle = b.per
+				add(j, b.shards)
 			}
 		}
 	}
@@ -343,7 +375,7 @@ type c08agg struct {
 	pos, neg map[int32]uint64
 }
 
-func c08bucketString(m map[int32]uint64) string {
+func c08appendBuckets(b []byte, m map[int32]uint64) []byte {
 	idx := make([]int, 0, len(m))
 	for i, n := range m {
 		if n != 0 {
@@ -351,31 +383,78 @@ func c08bucketString(m map[int32]uint64) string {
 		}
 	}
 	sort.Ints(idx)
-	var b strings.Builder
-	b.WriteByte('[')
+	b = append(b, '[')
 	for n, i := range idx {
 		if n > 0 {
-			b.WriteByte(' ')
+			b = append(b, ' ')
 		}
-		fmt.Fprintf(&b, "%d:%d", i, m[int32(i)])
+		b = strconv.AppendInt(b, int64(i), 10)
+		b = append(b, ':')
+		b = strconv.AppendUint(b, m[int32(i)], 10)
 	}
-	b.WriteByte(']')
-	return b.String()
+	return append(b, ']')
 }
 
-func (a *c08agg) String() string {
+// appendTo writes the aggregate in a canonical, readable form (no fmt: this runs for
+// every collected point of every history).
+func (a *c08agg) appendTo(b []byte) []byte {
 	if a == nil {
-		return "none"
+		return append(b, "none"...)
 	}
 	switch a.typ {
 	case "sum", "gauge":
-		return c08fmt(a.val)
+		return strconv.AppendFloat(b, a.val, 'g', -1, 64)
 	case "histogram":
-		return fmt.Sprintf("count=%d sum=%s buckets=%v", a.count, c08fmt(a.sum), a.counts)
+		b = append(b, "count="...)
+		b = strconv.AppendUint(b, a.count, 10)
+		b = append(b, " sum="...)
+		b = strconv.AppendFloat(b, a.sum, 'g', -1, 64)
+		b = append(b, " buckets=["...)
+		for i, n := range a.counts {
+			if i > 0 {
+				b = append(b, ' ')
+			}
+			b = strconv.AppendUint(b, n, 10)
+		}
+		return append(b, ']')
 	case "expohistogram":
-		return fmt.Sprintf("count=%d sum=%s scale=%d zero=%d pos=%s neg=%s", a.count, c08fmt(a.sum), a.scale, a.zero, c08bucketString(a.pos), c08bucketString(a.neg))
+		b = append(b, "count="...)
+		b = strconv.AppendUint(b, a.count, 10)
+		b = append(b, " sum="...)
+		b = strconv.AppendFloat(b, a.sum, 'g', -1, 64)
+		b = append(b, " scale="...)
+		b = strconv.AppendInt(b, int64(a.scale), 10)
+		b = append(b, " zero="...)
+		b = strconv.AppendUint(b, a.zero, 10)
+		b = append(b, " pos="...)
+		b = c08appendBuckets(b, a.pos)
+		b = append(b, " neg="...)
+		return c08appendBuckets(b, a.neg)
+	case "":
+		return append(b, "nothing"...)
 	}
-	return "?"
+	return append(b, '?')
+}
+
+func (a *c08agg) String() string { return string(a.appendTo(nil)) }
+
+// c08identical: exactly the same reported content (no scale alignment).
+func c08identical(a, b *c08agg) bool {
+	if a.typ != b.typ || a.val != b.val || a.count != b.count || a.sum != b.sum || a.scale != b.scale || a.zero != b.zero ||
+		len(a.counts) != len(b.counts) || len(a.bounds) != len(b.bounds) {
+		return false
+	}
+	for i := range a.counts {
+		if a.counts[i] != b.counts[i] {
+			return false
+		}
+	}
+	for i := range a.bounds {
+		if a.bounds[i] != b.bounds[i] {
+			return false
+		}
+	}
+	return c08sameBuckets(a.pos, b.pos) && c08sameBuckets(a.neg, b.neg)
 }
 
 func c08downscale(m map[int32]uint64, by int32) map[int32]uint64 {
@@ -669,35 +748,58 @@ func c08parse(rm *metricdata.ResourceMetrics) (c08snap, string) {
 	return snap, problem
 }
 
-// canon writes the values (no timestamps) of one metric, sets sorted.
-func (m *c08metric) canon() string {
+// appendTo writes the values (no timestamps) of one metric, sets sorted.
+func (m *c08metric) appendTo(b []byte) []byte {
 	if m == nil {
-		return "-"
+		return append(b, '-')
 	}
 	sets := make([]string, 0, len(m.points))
 	for s := range m.points {
 		sets = append(sets, s)
 	}
 	sort.Strings(sets)
-	var b strings.Builder
-	b.WriteString(m.typ)
+	b = append(b, m.typ...)
 	for _, s := range sets {
-		b.WriteString(" " + s + "=<" + m.points[s].agg.String() + ">")
+		b = append(b, ' ')
+		b = append(b, s...)
+		b = append(b, "=<"...)
+		b = m.points[s].agg.appendTo(b)
+		b = append(b, '>')
 	}
-	return b.String()
+	return b
 }
 
-func (s c08snap) canon() string {
+func (m *c08metric) canon() string { return string(m.appendTo(nil)) }
+
+func (m *c08metric) identical(o *c08metric) bool {
+	if m == nil || o == nil {
+		return m == o
+	}
+	if m.typ != o.typ || len(m.points) != len(o.points) {
+		return false
+	}
+	for s, p := range m.points {
+		q := o.points[s]
+		if q == nil || !c08identical(&p.agg, &q.agg) {
+			return false
+		}
+	}
+	return true
+}
+
+func (s c08snap) appendTo(b []byte) []byte {
 	names := make([]string, 0, len(s))
 	for n := range s {
 		names = append(names, n)
 	}
 	sort.Strings(names)
-	var b strings.Builder
 	for _, n := range names {
-		b.WriteString(n + ": " + s[n].canon() + "; ")
+		b = append(b, n...)
+		b = append(b, ": "...)
+		b = s[n].appendTo(b)
+		b = append(b, "; "...)
 	}
-	return b.String()
+	return b
 }
 
 // ---------------------------------------------------------------------------
@@ -733,20 +835,37 @@ func (s *c08stream) set(name string) *c08setState {
 	return st
 }
 
-func (s *c08stream) canon() string {
+func c08appendBool(b []byte, v bool) []byte {
+	if v {
+		return append(b, 'T')
+	}
+	return append(b, 'F')
+}
+
+func (s *c08stream) appendTo(b []byte) []byte {
 	names := make([]string, 0, len(s.sets))
 	for n := range s.sets {
 		names = append(names, n)
 	}
 	sort.Strings(names)
-	var b strings.Builder
-	b.WriteString(s.kind.String() + "{")
+	b = append(b, s.kind.String()...)
+	b = append(b, '{')
 	for _, n := range names {
 		st := s.sets[n]
-		fmt.Fprintf(&b, "%s: run=<%s> live=%v prev=%v/%s rec=%v/%s; ", n, st.run.String(), st.runLive, st.prevHas, c08fmt(st.prevObs), st.recorded, c08fmt(st.lastRec))
+		b = append(b, n...)
+		b = append(b, ": run=<"...)
+		b = st.run.appendTo(b)
+		b = append(b, "> live="...)
+		b = c08appendBool(b, st.runLive)
+		b = append(b, " prev="...)
+		b = c08appendBool(b, st.prevHas)
+		b = strconv.AppendFloat(b, st.prevObs, 'g', -1, 64)
+		b = append(b, " rec="...)
+		b = c08appendBool(b, st.recorded)
+		b = strconv.AppendFloat(b, st.lastRec, 'g', -1, 64)
+		b = append(b, "; "...)
 	}
-	b.WriteString("}")
-	return b.String()
+	return append(b, '}')
 }
 
 // ---------------------------------------------------------------------------
@@ -1063,13 +1182,16 @@ func (x *c08exec) run() (key string) {
 	if x.failed {
 		return ""
 	}
-	var b strings.Builder
-	b.WriteString(last)
-	fmt.Fprintf(&b, "|reg=%v/%v/%s|", x.reg != nil, x.regLive, c08fmt(x.regVal))
+	b := append([]byte(nil), last...)
+	b = append(b, "|reg="...)
+	b = c08appendBool(b, x.reg != nil)
+	b = c08appendBool(b, x.regLive)
+	b = strconv.AppendFloat(b, x.regVal, 'g', -1, 64)
+	b = append(b, '|')
 	for _, st := range x.streams {
-		b.WriteString(st.canon())
+		b = st.appendTo(b)
 	}
-	return b.String()
+	return string(b)
 }
 
 func (x *c08exec) collectOne(rd *sdk.ManualReader, reused *metricdata.ResourceMetrics, label string) (c08snap, time.Time, time.Time, bool) {
@@ -1129,7 +1251,14 @@ func (x *c08exec) collect(sg *c08sigma, isLast bool) string {
 			x.fail("unknown-metric|cumulative reader", "metric %q was never created", name)
 		}
 	}
-	return "delta: " + d.canon() + " cumulative: " + c.canon()
+	if !isLast {
+		return "-"
+	}
+	b := append([]byte(nil), "delta: "...)
+	b = d.appendTo(b)
+	b = append(b, " cumulative: "...)
+	b = c.appendTo(b)
+	return string(b)
 }
 
 func (x *c08exec) known(name string) bool {
@@ -1393,7 +1522,8 @@ func (x *c08exec) checkKept() {
 		}
 		sort.Strings(names)
 		for _, n := range names {
-			if was, is := k.snap[n].canon(), now[n].canon(); was != is {
+			if !k.snap[n].identical(now[n]) {
+				was, is := k.snap[n].canon(), now[n].canon()
 				x.fail("collected-data-changed-later|"+n+"/"+k.label, "the %s reader's collection #%d reported %s as <%s>; after the rest of the history the same ResourceMetrics reads <%s>", k.label, k.n, n, was, is)
 			}
 		}
